@@ -381,7 +381,8 @@ impl ServerEvent {
                 }
             }
             SendMode::Direct(client) => {
-                if client != SERVER {
+                // Like for buffered events, the client could be disconnected already.
+                if client != SERVER && clients.contains(client) {
                     server.send(client, self.channel_id, message.clone());
                 }
             }
